@@ -378,6 +378,64 @@ fn supported_subset_case(seed: u64, obs: &mut Obs) {
     }
 }
 
+/// The same program analysed directly and as the innermost file of an include chain whose other
+/// files are empty of declarations and faults: the analysis must return in both cases and report the
+/// same diagnostics (kinds as a multiset, counted over the lists of all files).
+fn include_chain_case(seed: u64, obs: &mut Obs) {
+    use super::semcommon::{analyse_chain, analyse_text, diag_kind, AErr};
+    let mut r = Rng::new(seed);
+    let src = if r.bool() { programs::faulty_program(&mut r) } else { programs::wide_program(&mut r) };
+    let mids = r.usize(3);
+    obs.fp.str(&src);
+    obs.fp.u64(mids as u64);
+    let direct = match analyse_text(&src) {
+        Ok(res) => {
+            let mut k: Vec<String> = res.semantic_errors().iter().map(diag_kind).collect();
+            for inc in res.semantic_errors().include_errors() {
+                k.extend(inc.iter().map(diag_kind));
+            }
+            k.sort();
+            k
+        }
+        Err(AErr::Rejected(_)) => {
+            obs.count("skipped:syntax-diagnostics");
+            obs.done(false);
+            return;
+        }
+        Err(AErr::Panic(site, _)) => {
+            // decided by the direct streams (same generator, same sites)
+            obs.count("skipped:direct-analysis-panics");
+            let _ = site;
+            obs.done(false);
+            return;
+        }
+    };
+    match analyse_chain(&src, "", mids, "c03") {
+        Ok(c) => {
+            let mut k: Vec<String> = c.diags.iter().map(|d| d.kind.clone()).collect();
+            k.sort();
+            let depth = c.res.symbol_table().verif_scope_depth();
+            if depth != 1 {
+                obs.violate("via-include-chain/scope-stack-not-restored", format!("{src:?} behind {mids} clean files: {depth} scopes open after analysis"));
+            }
+            if k != direct {
+                let clause = if k.len() < direct.len() { "diagnostics-lost" } else { "diagnostics-differ" };
+                obs.violate(format!("via-include-chain/{clause}/clean-files-between-{mids}"), format!("{src:?} analysed directly reports {direct:?}; as inner.inc behind {mids} clean include files the lists of all files hold {k:?}"));
+            }
+            if !direct.is_empty() {
+                obs.class("diagnostics-of-nested-include-observed");
+            }
+            obs.note = format!("{} diagnostics, same directly and behind {mids} clean include files", direct.len());
+            obs.done(true);
+        }
+        Err(AErr::Rejected(m)) => obs.inconclusive(format!("chain rejected: {m}")),
+        Err(AErr::Panic(site, msg)) => {
+            obs.violate(format!("via-include-chain/{site}"), format!("{src:?} analyses directly but panics as inner.inc behind {mids} clean files: {msg}"));
+            obs.done(true);
+        }
+    }
+}
+
 impl Property for C03 {
     fn id(&self) -> &'static str {
         "C03"
@@ -398,6 +456,7 @@ impl Property for C03 {
             format!("s:{}", with_comments(&mut r, &p))
         }));
         v.push(Stream::new("supported-subset-model-programs", tier.pick(30_000, 1_500_000), false, move |i| format!("sup:{}", mix(&[seed, 0xC03, 9, i]))));
+        v.push(Stream::new("programs-as-innermost-file-of-an-include-chain", tier.pick(6_000, 200_000), false, move |i| format!("ch:{}", mix(&[seed, 0xC03, 10, i]))));
         v.push(Stream::new("seed-programs", strings::seed_programs().len() as u64, true, |i| format!("s:{}", strings::seed_programs()[i as usize])));
         for st in common::string_streams(0xC03, tier, seed, tier.pick(1.0, 0.5)) {
             // survivors: sources with syntax diagnostics are skipped inside the monitor
@@ -421,6 +480,10 @@ impl Property for C03 {
             supported_subset_case(rest.parse().unwrap_or(0), obs);
             return;
         }
+        if let Some(rest) = input.strip_prefix("ch:") {
+            include_chain_case(rest.parse().unwrap_or(0), obs);
+            return;
+        }
         if let Some(s) = input.strip_prefix("ms:") {
             check_source(s, obs, false);
             return;
@@ -428,6 +491,6 @@ impl Property for C03 {
         obs.inconclusive("unrecognised input spec");
     }
     fn mandatory_classes(&self, _tier: Tier) -> Vec<&'static str> {
-        vec!["semantic-diagnostics-reported", "unsupported-construct-diagnosed"]
+        vec!["semantic-diagnostics-reported", "unsupported-construct-diagnosed", "diagnostics-of-nested-include-observed"]
     }
 }
